@@ -24,13 +24,15 @@ const (
 
 // RelaxNames lists the named relaxations in the order explanations are tried. Scope says which
 // entry points a relaxation may explain: "buf" = every entry point, "skip" = entry points whose
-// destination makes the decoder skip (part of) the document, "stream" = Decoder/Valid only.
+// destination makes the decoder skip (part of) the document, "stream" = Decoder/Valid only,
+// "skipnum" = as "skip", but not standing for the whole skip scanner: only the number token inside a
+// skipped value is not checked (decoded numbers are, since fix 9277c67).
 var RelaxNames = []struct {
 	Name  string
 	R     Relax
 	Scope string
 }{
-	{"num:parsefloat-grammar", RNumParseFloat, "buf"},
+	{"num:parsefloat-grammar", RNumParseFloat, "skipnum"},
 	{"str:raw-ctl", RStrRawCtl, "buf"},
 	{"nul-terminates", RNulEnds, "buf"},
 	{"skip:unvalidated", RSkip, "skip"},
